@@ -365,6 +365,51 @@ def extra_instances(rng, dtype, batch, n):
     Rr = ri(rng, (*batch, n, 2), dtype=dtype)
     out.append(Inst("LowRankRootAddedDiag[const]", lambda c, r=Rr, e=c2: (lambda s, t: (LowRankRootAddedDiagLinearOperator(LowRankRootLinearOperator(s), ConstantDiagLinearOperator(t, diag_shape=n)),
                                                                                r @ r.mT + e.unsqueeze(-1) * eye(n), [s, t]))(c(r), c(e)), True))
+    # ---- user-supplied triangular factors whose DIAGONAL IS SIGN-INDEFINITE (L @ diag(+-1), an unconstrained triangular
+    # parameter): L L^T (resp. U^T U) is still PD and every logdet entry point must return log det = sum log(L_ii^2)
+    # (theorem cholLogdet_eq needs only L_ii != 0) — no NaN, whatever the number of negative entries.  In a batch only
+    # the LAST member is affected (member 0 keeps a positive diagonal).
+    def signs(k, nneg):
+        s = torch.ones(*batch, k, dtype=dtype)
+        for j in ([k - 1] if nneg == 1 else ([0, k - 1] if nneg == 2 else range(k))):
+            s[..., j] = -1
+        if batch:
+            s[(0,) * len(batch)] = 1
+        return s
+    for tagn, nneg in (("1neg", 1), ("2neg", 2), ("allneg", n)):
+        sg = signs(n, nneg)
+        Ln = (L * sg.unsqueeze(-2)).contiguous()          # columns scaled: L @ diag(s)
+        Un = (Uu * sg.unsqueeze(-1)).contiguous()         # rows scaled: diag(s) @ U
+        out.append(Inst(f"Chol[lower,diag{tagn}]", lambda c, L=Ln: (lambda t: (CholLinearOperator(TriangularLinearOperator(t)), L @ L.mT, [t]))(c(L)), True))
+        out.append(Inst(f"Chol[upper,diag{tagn}]", lambda c, U=Un: (lambda t: (CholLinearOperator(TriangularLinearOperator(t, upper=True), upper=True), U.mT @ U, [t]))(c(U)), True))
+    sg1 = signs(n, 1)
+    Ln1, Un1 = (L * sg1.unsqueeze(-2)).contiguous(), (Uu * sg1.unsqueeze(-1)).contiguous()
+    s2k = signs(2, 1)
+    L2n = (U2.mT * s2k.unsqueeze(-2)).contiguous()
+    KLn = kron(L2n, Ln1)
+    out.append(Inst("Chol[lower,diag1neg](KroneckerTriangular)", lambda c, a=L2n, b=Ln1: (lambda s, t: (
+        CholLinearOperator(KroneckerProductTriangularLinearOperator(TriangularLinearOperator(s), TriangularLinearOperator(t))), KLn @ KLn.mT, [s, t]))(c(a), c(b)), True))
+    U2n = (U2 * s2k.unsqueeze(-1)).contiguous()
+    KUn = kron(U2n, Un1)
+    out.append(Inst("Chol[upper,diag1neg](KroneckerTriangular)", lambda c, a=U2n, b=Un1: (lambda s, t: (
+        CholLinearOperator(KroneckerProductTriangularLinearOperator(TriangularLinearOperator(s, upper=True), TriangularLinearOperator(t, upper=True), upper=True), upper=True),
+        KUn.mT @ KUn, [s, t]))(c(a), c(b)), True))
+    sb = torch.ones(*batch, 2, n, dtype=dtype)
+    sb[..., 1, n - 1] = -1                                # only the second block has a negative diagonal entry
+    if n >= 2:
+        sb[..., 1, 0] = -1 if n >= 3 else 1
+    Ubn = (Ub * sb.unsqueeze(-1)).contiguous()
+    Lbn = (Ub.mT * sb.unsqueeze(-2)).contiguous()
+    out.append(Inst("BlockDiag(Chol[upper,diagneg])", lambda c, U=Ubn: (lambda t: (BlockDiagLinearOperator(CholLinearOperator(TriangularLinearOperator(t, upper=True), upper=True)),
+                                                                             catalogue.block_diag_dense(U.mT @ U), [t]))(c(U)), True))
+    out.append(Inst("BlockDiag(Chol[lower,diagneg])", lambda c, L=Lbn: (lambda t: (BlockDiagLinearOperator(CholLinearOperator(TriangularLinearOperator(t))),
+                                                                             catalogue.block_diag_dense(L @ L.mT), [t]))(c(L)), True))
+    out.append(Inst("BlockInterleaved(Chol[lower,diagneg])", lambda c, L=Lbn: (lambda t: (BlockInterleavedLinearOperator(CholLinearOperator(TriangularLinearOperator(t))),
+                                                                                    catalogue.block_interleaved_dense(L @ L.mT), [t]))(c(L)), True))
+    out.append(Inst("BatchRepeat(Chol[lower,diag1neg])", lambda c, L=Ln1: (lambda t: (BatchRepeatLinearOperator(CholLinearOperator(TriangularLinearOperator(t)), batch_repeat=torch.Size(rep2)),
+                                                                               (L @ L.mT).repeat(*rep2, 1, 1), [t]))(c(L)), True))
+    out.append(Inst("BatchRepeat(Chol[upper,diag1neg])", lambda c, U=Un1: (lambda t: (BatchRepeatLinearOperator(CholLinearOperator(TriangularLinearOperator(t, upper=True), upper=True), batch_repeat=torch.Size(rep2)),
+                                                                               (U.mT @ U).repeat(*rep2, 1, 1), [t]))(c(U)), True))
     out.append(Inst("LowRankRootAddedDiag[diag-first]", lambda c, r=Rr, e=dA: (lambda s, t: (LowRankRootAddedDiagLinearOperator(DiagLinearOperator(t), LowRankRootLinearOperator(s)),
                                                                                     r @ r.mT + torch.diag_embed(e), [s, t]))(c(r), c(e)), True))
     return out
@@ -639,6 +684,7 @@ class State:
             self.instance(it, torch.float64, tuple(it.shape[:-2]), it.shape[-1], force_cfgs=["slq", "slq[m=1]", "slq[chol=n-1]", "slq+cached-root"]
                           + (["slq+precond"] if "AddedDiag" in it.name else []))
         self.patched_probe_cells()
+        self.history_cells()
         for dtype in dtypes:
             for batch in batches:
                 sizes = [3] if (quick or dtype == torch.float32) else [3, 4]
@@ -775,6 +821,75 @@ class State:
                     chk.traces_validated += 1
                     chk.count("slq_quadrature_checked")
 
+    def history_cells(self):
+        """Multi-call histories on ONE operator object: a (partial) Lanczos diagonalization requested first —
+        `K.diagonalization(method="lanczos")`, N above max_root_decomposition_size so that it has fewer than N eigenvalues —
+        then `logdet()` / `inv_quad_logdet` / `torch.logdet` on the same object.  The closed-form Kronecker `_logdet` needs the FULL
+        symeig spectrum (theorem kronLogdetN_eq: all N products of factor eigenvalues); whatever was cached by the earlier call, the
+        result must equal the exact log-determinant and the value a fresh object returns."""
+        import contextlib
+        from linear_operator.operators import (ConstantDiagLinearOperator, DenseLinearOperator, DiagLinearOperator,
+                                               KroneckerProductLinearOperator)
+        chk, settings = self.chk, self.settings
+        kron = catalogue.kron
+        for kind in ("Kronecker", "Kronecker[3]", "Kronecker+Const", "Kronecker+Diag", "Dense"):
+            for size in ("144", "small"):
+                for first in ("lanczos", "symeig", "lanczos+symeig"):
+                    cell = f"C05/hist:{kind}[{size}]/diagonalization({first})-then-logdet"
+                    if self.only and self.only != cell:
+                        continue
+                    crng = random.Random(f"C05:{chk.seed}:{cell}")
+                    payload = {"cell": cell, "seed": chk.seed, "tier": chk.tier}
+                    dims = ([12, 12] if kind != "Kronecker[3]" else [4, 6, 6]) if size == "144" else ([2, 3] if kind != "Kronecker[3]" else [2, 2, 2])
+                    fac = [catalogue.psd_int(crng, (), k, torch.float64) for k in dims]
+                    N = int(np.prod(dims))
+                    dense = fac[0]
+                    for f in fac[1:]:
+                        dense = kron(dense, f)
+                    dv = catalogue.ri(crng, (N,), 1, 3, torch.float64)
+                    cv = catalogue.ri(crng, (1,), 1, 3, torch.float64)
+                    if kind == "Kronecker+Const":
+                        dense = dense + cv * torch.eye(N, dtype=torch.float64)
+                    elif kind == "Kronecker+Diag":
+                        dense = dense + torch.diag_embed(dv)
+
+                    def build():
+                        ts = [f.clone().requires_grad_(True) for f in fac]
+                        if kind == "Dense":
+                            return DenseLinearOperator(dense.clone().requires_grad_(True))
+                        k_ = KroneckerProductLinearOperator(*ts)
+                        if kind == "Kronecker+Const":
+                            return k_ + ConstantDiagLinearOperator(cv.clone(), diag_shape=N)
+                        if kind == "Kronecker+Diag":
+                            return k_ + DiagLinearOperator(dv.clone())
+                        return k_
+                    chk.case(cell + f"|{chk.seed}")
+                    chk.count("cfg:history")
+                    # N = 144: float64 slogdet of the independent dense matrix (a Fraction elimination of that size is too slow)
+                    exact = Oracle(dense).logdet() if N <= 12 else torch.linalg.slogdet(dense)[1]
+                    R = torch.randint(-3, 4, (N, 2), generator=torch.Generator().manual_seed(crng.randrange(2 ** 31))).double()
+                    ctx = settings.max_root_decomposition_size(3) if size == "small" else contextlib.nullcontext()
+                    try:
+                        with ctx, settings.max_cholesky_size(800):
+                            op = build()
+                            inner = op.linear_op if hasattr(op, "linear_op") and kind.startswith("Kronecker+") else op
+                            for mth in first.split("+"):
+                                ev, _ = inner.diagonalization(method=mth)
+                                if mth == "lanczos" and ev.shape[-1] < N:
+                                    chk.count("history_partial_diagonalization")
+                            got = {"logdet()": op.logdet(), "torch.logdet": torch.logdet(op),
+                                   "inv_quad_logdet": op.inv_quad_logdet(R.clone(), logdet=True)[1]}
+                            fresh = build().logdet()
+                    except Exception as e:
+                        chk.violation(cell + "/exception=" + exc_tag(e), f"history raised {type(e).__name__}: {str(e)[:160]}", payload)
+                        continue
+                    bad = [k for k, v in got.items() if not close(v.detach(), exact, 1e-8)]
+                    if bad or not close(fresh.detach(), exact, 1e-8):
+                        chk.violation(cell + "/logdet", f"after diagonalization(method={first}) on the same object: "
+                                      + ", ".join(f"{k}={float(v.detach()):.10g}" for k, v in got.items()) + f"; fresh object {float(fresh.detach()):.10g}; exact {float(exact):.10g}", payload)
+                        continue
+                    chk.traces_validated += 1
+
     # ------------------------------------------------------------------ one case
     def one(self, cell, it, orc, dtype, batch, N, cname, cfg, rk, R, red, lg):
         chk, settings = self.chk, self.settings
@@ -875,6 +990,9 @@ class State:
                 self.entry_points(cell, payload, it, orc, R, tol_det, batch, negdet)
             if cname in ("default", "slq") and R is not None and not lg and not negdet and "nonsym" not in it.tags:
                 self.entry_inv_quad(cell, payload, it, orc, R, red, tol_iq, batch)
+            # ---- Kronecker models (any number of factors): eigenvalue assembly, log-determinant branches, sequential solve
+            if not f32 and cname in ("default", "chol=n", "slq") and rk in ("none", "mat") and red and lg and ld is not None and not stoch:
+                self.kron_models(cell, payload, op, batch, R, ld)
             # ---- block reduction model: per-block log-determinants of the base operator
             if lg and not stoch and not f32 and cname == "default" and type(op).__name__ in ("BlockDiagLinearOperator", "BlockInterleavedLinearOperator") and ld is not None:
                 try:
@@ -884,6 +1002,58 @@ class State:
                     self.expect.append(("scalar", cell, float(members(ld.detach().double(), len(batch))[0]) if batch else float(ld), 1e-9))
                 except Exception:
                     pass
+
+    def kron_models(self, cell, payload, op, batch, R, ld):
+        """Lean models `kronLogdetN`, `kronDiag`, `kpadloKronConstLogdet`, `kpadloSymmLogdet`, `kronSolve` + `kronInvQuadCols` on the
+        primitives' outputs the implementation itself uses (factor eigenvalues from `_symeig`, exact inverses of the integer
+        factors) vs what the implementation returns (`_logdet()`, `diagonalization()`, `_solve`), batch member 0."""
+        from linear_operator.operators import (ConstantDiagLinearOperator, KroneckerProductAddedDiagLinearOperator,
+                                               KroneckerProductDiagLinearOperator, KroneckerProductLinearOperator)
+        chk, settings = self.chk, self.settings
+        if len(self.lines) >= self.line_cap():
+            return
+        first = lambda t: members(t.detach().double(), len(batch))[0]
+        rows = lambda vs: ";".join(",".join(fmt_rat(float(x)) for x in v.tolist()) for v in vs)
+        ld0 = float(first(ld)) if batch else float(ld)
+        try:
+            if type(op) is KroneckerProductLinearOperator and all(lt.is_square for lt in op.linear_ops):
+                evs = [first(lt._symeig(eigenvectors=True)[0]) for lt in op.linear_ops]
+                self.lines.append("kronlogdet " + rows(evs))
+                self.expect.append(("float", cell + "/kronN", ld0, 1e-9))
+                full = first(op.diagonalization()[0])
+                self.lines.append("krondiag " + rows(evs))
+                self.expect.append(("ratlist", cell + "/krondiag", full, 1e-12))
+                chk.count(f"kron_model_factors={len(evs)}")
+                if R is not None and R.dim() > 1:
+                    facs = [first(lt.to_dense()) for lt in op.linear_ops]
+                    invs = []
+                    for f in facs:
+                        _, _, x = exact_logdet_and_solve(f, torch.eye(f.shape[-1], dtype=torch.float64))
+                        invs.append(x)
+                    R0 = first(R)
+                    sol = first(op._solve(R.clone().double()))
+                    self.lines.append("kronsolve " + ",".join(str(f.shape[-1]) for f in facs) + " "
+                                      + "|".join(";".join(",".join(fmt_rat(v) for v in r) for r in x) for x in invs) + " " + rows(R0))
+                    self.expect.append(("kronsolve", cell + "/kronsolve", sol, 1e-8))
+            elif isinstance(op, KroneckerProductAddedDiagLinearOperator) and not op._diag_is_constant \
+                    and op.shape[-1] >= settings.max_cholesky_size.value() and isinstance(op.diag_tensor, KroneckerProductDiagLinearOperator):
+                lt, dlt = op.linear_op, op.diag_tensor
+                if len(lt.linear_ops) == len(dlt.linear_ops) and all(isinstance(d, ConstantDiagLinearOperator) for d in dlt.linear_ops):
+                    ev_lazy, _ = lt._symeig(eigenvectors=True, return_evals_as_lazy=True)
+                    evs = [first(e._diagonal()) for e in ev_lazy.linear_ops]
+                    consts = [float(first(d.diag_values).reshape(-1)[0]) for d in dlt.linear_ops]
+                    self.lines.append("kpadloconst " + rows(evs) + " " + ",".join(fmt_rat(c) for c in consts))
+                    self.expect.append(("float", cell + "/kpadlo-kronconst", float(first(op._logdet())) if batch else float(op._logdet()), 1e-9))
+                    chk.count("kpadlo_branch:kronconst")
+                else:
+                    ds = [first(d._diagonal()) for d in dlt.linear_ops]
+                    ks = [first(k.to_dense()) for k in lt.linear_ops]
+                    sev = [torch.linalg.eigvalsh(k / d.sqrt().unsqueeze(-1) / d.sqrt().unsqueeze(-2)) for k, d in zip(ks, ds)]
+                    self.lines.append("kpadlosymm " + rows(sev) + " " + rows(ds))
+                    self.expect.append(("float", cell + "/kpadlo-symm", float(first(op._logdet())) if batch else float(op._logdet()), 1e-9))
+                    chk.count("kpadlo_branch:symm")
+        except Exception as e:  # the implementation raising here is reported by the main path; a harness problem must not hide
+            chk.corr_break(cell + "/kron-model/exception", f"{type(e).__name__}: {str(e)[:160]}", payload)
 
     def line_cap(self):
         return 1500 if self.chk.tier == "quick" else 6000
@@ -1019,6 +1189,41 @@ class State:
                     chk.count("value_model_agree")
                 else:
                     chk.corr_break(cell + "/value-model", f"Lean model value {got} vs implementation {want}", pl)
+            elif kind == "float":
+                try:
+                    mant, ex = o.split(":")
+                    got = int(mant) * 2.0 ** int(ex)
+                except Exception:
+                    chk.corr_break(cell + "/model", f"driver output {o[:80]}", pl)
+                    continue
+                if abs(got - want) <= tol * (1 + abs(want)):
+                    chk.traces_validated += 1
+                    chk.count("kron_value_model_agree")
+                else:
+                    chk.corr_break(cell + "/value-model", f"Lean model value {got} vs implementation {want}", pl)
+            elif kind == "ratlist":
+                try:
+                    got = torch.tensor([float(Fraction(x)) for x in o.split(",")], dtype=torch.float64)
+                except Exception:
+                    chk.corr_break(cell + "/model", f"driver output {o[:80]}", pl)
+                    continue
+                if got.shape == want.shape and close(got, want, tol):   # same ORDER as the implementation's eigenvalue vector
+                    chk.traces_validated += 1
+                    chk.count("krondiag_model_agree")
+                else:
+                    chk.corr_break(cell + "/value-model", f"Lean kronDiag {got.tolist()[:6]} vs implementation {want.tolist()[:6]}", pl)
+            elif kind == "kronsolve":
+                try:
+                    solm, _cols = o.split(" ")
+                    got = torch.tensor([[float(Fraction(x)) for x in r.split(",")] for r in solm.split(";")], dtype=torch.float64)
+                except Exception:
+                    chk.corr_break(cell + "/model", f"driver output {o[:80]}", pl)
+                    continue
+                if got.shape == want.shape and close(got, want, tol):
+                    chk.traces_validated += 1
+                    chk.count("kronsolve_model_agree")
+                else:
+                    chk.corr_break(cell + "/value-model", f"Lean kronSolve {got.flatten().tolist()[:6]} vs implementation _solve {want.flatten().tolist()[:6]}", pl)
             elif kind == "iq":
                 try:
                     colsm, redm = o.split(" ")
